@@ -995,3 +995,179 @@ def init_before_spawn(ctx, rule, rels):
         late = sorted(a for a in reads if a in first_store and first_store[a] > order[id(sp)])
         ctx.ob(rule, init, 'everything the greenlet started on self.%s reads is stored before it is started' % tgt.attr, not late,
                'attributes read by %s but first stored after the spawn: %s' % (tgt.attr, late), why)
+
+
+def one_shot_iterators(ctx, rule, rels):
+  """A local bound to a one-shot iterator (the result of a generator function, a generator expression, map/filter/zip) is consumed at most once on
+  every path (generic rule): the second loop over it sees nothing."""
+  from .types import Inference, _own
+  prog = ctx.prog
+  inf = Inference(prog)
+  why = ('a generator can be iterated once: a second `for`, comprehension or call that walks it again gets no elements, so whatever the second pass does '
+         '(deliver the join notifications, send the frames, fill the table) silently does not happen')
+
+  def is_x(e, x):
+    return isinstance(e, ast.Name) and e.id == x
+
+  def uses(node, x):
+    """consumptions of x inside one expression/simple statement (nested functions excluded, comprehensions included)."""
+    n = 0
+    for c in [node] + list(_own(node)):
+      if isinstance(c, ast.comprehension) and is_x(c.iter, x):
+        n += 1
+      elif isinstance(c, ast.Call):
+        n += sum(1 for a in c.args if is_x(a, x) or (isinstance(a, ast.Starred) and is_x(a.value, x)))
+        n += sum(1 for k in c.keywords if is_x(k.value, x))
+      elif isinstance(c, ast.Compare) and any(isinstance(o, (ast.In, ast.NotIn)) for o in c.ops) and any(is_x(r, x) for r in c.comparators):
+        n += 1
+      elif isinstance(c, (ast.Return, ast.Yield, ast.YieldFrom)) and c.value is not None and is_x(c.value, x):
+        n += 1
+      elif isinstance(c, ast.Assign) and is_x(c.value, x):
+        n += 1       # (an alias: whoever holds it walks the same iterator)
+    return n
+
+  def count(stmts, x):
+    tot = 0
+    for st in stmts:
+      if isinstance(st, (ast.FunctionDef, ast.AsyncFunctionDef, ast.ClassDef)):
+        continue
+      if isinstance(st, ast.If):
+        tot += uses(st.test, x) + max(count(st.body, x), count(st.orelse, x))
+      elif isinstance(st, (ast.For, ast.AsyncFor)):
+        tot += (1 if is_x(st.iter, x) else uses(st.iter, x)) + 2 * count(st.body, x) + count(st.orelse, x)
+      elif isinstance(st, ast.While):
+        tot += 2 * (uses(st.test, x) + count(st.body, x)) + count(st.orelse, x)
+      elif isinstance(st, (ast.With, ast.AsyncWith)):
+        tot += sum(uses(i.context_expr, x) for i in st.items) + count(st.body, x)
+      elif isinstance(st, ast.Try):
+        tot += count(st.body, x) + max([count(h.body, x) for h in st.handlers] or [0]) + count(st.orelse, x) + count(st.finalbody, x)
+      else:
+        tot += uses(st, x)
+    return tot
+
+  for f in prog.all_funcs:
+    if f.module.rel not in rels:
+      continue
+    defs = {}
+    for n in _own(f.node):
+      if isinstance(n, ast.Assign) and len(n.targets) == 1 and isinstance(n.targets[0], ast.Name):
+        defs.setdefault(n.targets[0].id, []).append(n.value)
+    for x, vals in sorted(defs.items()):
+      if len(vals) != 1:
+        continue
+      w = inf.one_shot(f, vals[0])
+      if not w:
+        continue
+      k = count(f.node.body, x)
+      ctx.ob(rule, f, 'one-shot iterator %s is consumed at most once' % x, k <= 1,
+             '%s holds an iterator that can be walked once (%s) and is consumed %d times on a path' % (x, w, k), why, nontrivial=k > 1)
+
+
+def truthiness_protocol(ctx, rule, rels):
+  """A truth test (`if m`, `filter(None, ..)`, `x or y`) on a value that may be an instance of a package class means "is there an object": the class
+  must not define __len__ / __bool__, which would make some real instances falsy (generic rule)."""
+  from .types import Inference, _own
+  prog = ctx.prog
+  inf = Inference(prog)
+  why = ('`if m` / `filter(None, ...)` / `m or default` on an object of a package class asks whether there IS an object (None = vanished node, missing '
+         'entry); once the class defines __len__ or __bool__ an existing but "empty" instance is dropped as if it were missing')
+  n = 0
+
+  def falsy_dunder(c):
+    for k in prog.mro(c):
+      for nm in ('__bool__', '__len__', '__nonzero__'):
+        if nm in k.methods:
+          return '%s.%s' % (k.name, nm)
+    return None
+
+  def tested(e, out):
+    if isinstance(e, ast.BoolOp):
+      for v in e.values:
+        tested(v, out)
+    elif isinstance(e, ast.UnaryOp) and isinstance(e.op, ast.Not):
+      tested(e.operand, out)
+    elif isinstance(e, (ast.Name, ast.Call, ast.Attribute)):
+      out.append(e)
+
+  for f in prog.all_funcs:
+    if f.module.rel not in rels:
+      continue
+    env = None
+    sites = []       # (expression, 'val' | 'elem')
+    for nd in _own(f.node):
+      if isinstance(nd, (ast.If, ast.While, ast.IfExp)):
+        o = []
+        tested(nd.test, o)
+        sites += [(e, 'val') for e in o]
+      elif isinstance(nd, ast.comprehension):
+        for i in nd.ifs:
+          o = []
+          tested(i, o)
+          sites += [(e, 'val') for e in o]
+      elif isinstance(nd, ast.BoolOp):
+        o = []
+        for v in nd.values[:-1]:
+          tested(v, o)
+        sites += [(e, 'val') for e in o]
+      elif isinstance(nd, ast.Call) and isinstance(nd.func, ast.Name) and nd.func.id == 'filter' and len(nd.args) == 2 \
+          and isinstance(nd.args[0], ast.Constant) and nd.args[0].value is None:
+        sites.append((nd.args[1], 'elem'))
+    if not sites:
+      continue
+    env = inf.env_of(f)
+    seen = set()
+    for e, kind in sites:
+      cs = (inf.expr_classes if kind == 'val' else inf.elem_classes)(f, e, env)
+      for c in sorted(cs, key=lambda c_: c_.qualname):
+        key = (unparse(e), c.qualname)
+        if key in seen:
+          continue
+        seen.add(key)
+        n += 1
+        d = falsy_dunder(c)
+        ctx.ob(rule, f, 'truth test of %s (a %s) means "is there one"' % (unparse(e), c.name), d is None,
+               '%s may be a %s, and %s makes some instances falsy' % (unparse(e), c.name, d), why, nontrivial=d is not None)
+  return n
+
+
+def timeouts_caught(ctx, rule, rels):
+  """A gevent.Timeout armed in a function is caught by that function (generic rule).  gevent.Timeout derives from BaseException: the fault paths of the
+  transports (`except Exception: self._Fault(ex)`) do not see it, so a timer that fires with no `except gevent.Timeout` around kills the greenlet with the
+  connection neither closed nor reported, and whoever waits on it waits for ever."""
+  prog = ctx.prog
+  why = ('gevent.Timeout is a BaseException: it passes every `except Exception` on its way up; the function that arms it must catch it itself (or arm it silent, '
+         'Timeout(t, False)), otherwise the fault is neither delivered to the caller nor turned into a closed channel')
+  for f in prog.all_funcs:
+    if f.module.rel not in rels:
+      continue
+    parents = {}
+    for p in ast.walk(f.node):
+      for ch in ast.iter_child_nodes(p):
+        parents[id(ch)] = p
+    for c in ast.walk(f.node):
+      if not isinstance(c, ast.Call):
+        continue
+      t = unparse(c.func).replace(' ', '')
+      armed = t in ('gevent.Timeout.start_new', 'Timeout.start_new', 'gevent.with_timeout', 'with_timeout')
+      if t in ('gevent.Timeout', 'Timeout'):
+        par = parents.get(id(c))
+        armed = isinstance(par, ast.withitem) or (isinstance(par, ast.Attribute) and par.attr == 'start')
+        if len(c.args) >= 2 and isinstance(c.args[1], ast.Constant) and c.args[1].value is False:
+          armed = False      # silent timeout: the with block just ends
+        if any(k.arg == 'exception' and isinstance(k.value, ast.Constant) and k.value.value is False for k in c.keywords):
+          armed = False
+      if not armed:
+        continue
+      caught = False
+      n = c
+      while id(n) in parents and not caught:
+        p = parents[id(n)]
+        if isinstance(p, ast.Try) and any(n is s_ for s_ in p.body):
+          for h in p.handlers:
+            ht = unparse(h.type) if h.type is not None else ''
+            if h.type is None or 'Timeout' in ht or 'BaseException' in ht:
+              caught = True
+        if isinstance(p, (ast.FunctionDef, ast.AsyncFunctionDef, ast.Lambda)) and p is not f.node:
+          break
+        n = p
+      ctx.ob(rule, f, 'a gevent.Timeout armed here is caught here', caught, '%s is armed with no enclosing `except gevent.Timeout`' % unparse(c)[:80], why)
